@@ -11,6 +11,8 @@ import (
 	"regexp"
 	"strings"
 
+	tq "github.com/facebookincubator/tacquito"
+
 	"github.com/facebookincubator/tacquito/cmds/server/config"
 )
 
@@ -121,14 +123,15 @@ func vpH_C11_rules__6(c int) {
 }
 
 var vpPatterns = []string{
-	"ab", "a|b", "^a|b", "a|b$", "a\\|b", "a\\$", "(", "a.*",
+	"ab", "a|b", "^a|b", "a|b$", "a|ab", "a\\$", "(", "a.*",
+	"a\\|b",
 	"^a|b$", "(a|b)", "^(a|b)$", ".*b", "\\^a",
 	"[ab]c", "a+", "a?b", "ab|", "|ab", "^", "$", " a ", "[", "a**", "a b", "a|b|c",
 }
 
 // whole-string matching: one PERMIT rule with one pattern from the corpus, a symbolic argument string
-func vpH_C11_anchor__25(c int) {
-	if c >= vpBound("c11corpus", 25) {
+func vpH_C11_anchor__26(c int) {
+	if c >= vpBound("c11corpus", 26) {
 		return // the quick tier runs the head of the corpus
 	}
 	pat := vpPatterns[c]
@@ -213,4 +216,111 @@ func vpH_C07_stringy_direct() {
 		vpAssert(out[0][12] == 0x10, "C11.direct.other-user-is-FAIL")
 	}
 	vpReach("C07.stringy.end")
+}
+
+// ---------------------------------------------------------------- session (service) authorization
+
+// services configured for the user; each may be conditioned on the connection's scope
+func vpSessionServices(c int) []config.Service {
+	shell := config.Service{Name: "shell", SetValues: []config.Value{{Name: "priv-lvl", Values: []string{"15"}}}}
+	ppp := config.Service{Name: " ppp ", SetValues: []config.Value{{Name: "addr", Values: []string{"1"}}, {Name: "mtu", Values: []string{"9"}}}}
+	switch c {
+	case 0:
+		return []config.Service{shell, ppp}
+	case 1:
+		shell.Match = []config.Value{{Name: "scope", Values: []string{"s1"}}}
+		return []config.Service{shell, ppp}
+	case 2:
+		// only granted on another scope
+		shell.Match = []config.Value{{Name: "scope", Values: []string{"prod"}}}
+		return []config.Service{shell}
+	default:
+		shell.Match = []config.Value{{Name: "protocol", Values: []string{"ip"}}}
+		return []config.Service{ppp, shell}
+	}
+}
+
+var vpSessionArgs = []string{"service=shell", "service=ppp", "service=x", "protocol=ip", "scope=prod", "scope=s1", "cmd="}
+
+// c = service configuration (0..3)
+func vpH_C11_session__4(c int) {
+	services := vpSessionServices(c)
+	a := config.User{Name: "a", Scopes: []string{"s1"}, Services: services}
+	cfg := config.ServerConfig{Secrets: []config.SecretConfig{vpScope("s1", "k", `["10.0.0.0/8"]`)}, Users: []config.User{a}}
+	w := vpNewWorld()
+	_, h := w.handlerFor(cfg)
+	if h == nil {
+		return
+	}
+	n := vpIntC(1, 2)
+	var args []string
+	first := vpIntC(0, len(vpSessionArgs)-1)
+	args = append(args, vpSessionArgs[first])
+	if n == 2 {
+		second := vpIntC(0, len(vpSessionArgs)-1)
+		vpAssume(second != first)
+		args = append(args, vpSessionArgs[second])
+	}
+	conn := w.run(h, vpPacket(0, 2, 1, vpU32(), vpAuthorRequestBody(6, 1, 1, 1, "a", args)))
+	out := conn.Out()
+	vpAssert(len(out) == 1, "C07.handlers.one-reply-per-authorization-request")
+	if len(out) != 1 || len(out[0]) < 13 {
+		return
+	}
+	// ---- reference evaluation: the request's arguments plus the connection's scope
+	kv := map[string]string{}
+	for _, x := range args {
+		i := strings.IndexAny(x, "=*")
+		kv[x[:i]] = x[i+1:]
+	}
+	kv["scope"] = "s1" // the connection's scope, whatever the client claims
+	var want []string
+	for _, sv := range services {
+		name := strings.TrimSpace(sv.Name)
+		named := false
+		for _, x := range append(append([]string{}, args...), "scope=s1") {
+			i := strings.IndexAny(x, "=*")
+			if x[:i] == name || x[i+1:] == name {
+				named = true
+			}
+		}
+		if !named {
+			continue
+		}
+		ok := true
+		for _, m := range sv.Match {
+			v, has := kv[m.Name]
+			if !has {
+				ok = false
+			}
+			for _, mv := range m.Values {
+				if v != mv {
+					ok = false
+				}
+			}
+		}
+		if !ok {
+			continue
+		}
+		for _, v := range sv.SetValues {
+			want = append(want, v.Name+"="+strings.Join(v.Values, " "))
+		}
+	}
+	var reply tq.AuthorReply
+	err := reply.UnmarshalBinary(out[0][12:])
+	vpAssert(err == nil, "C11.session.reply-decodes")
+	if err != nil {
+		return
+	}
+	if len(want) == 0 {
+		vpReach("C11.session.fail")
+		vpAssert(reply.Status == tq.AuthorStatusFail, "C11.session.no-applicable-service-is-FAIL")
+		return
+	}
+	vpReach("C11.session.pass")
+	vpAssert(reply.Status == tq.AuthorStatusPassAdd, "C11.session.pass-add")
+	vpAssert(len(reply.Args) == len(want), "C11.session.exactly-the-configured-values.count")
+	for i := 0; i < len(want) && i < len(reply.Args); i++ {
+		vpAssert(string(reply.Args[i]) == want[i], "C11.session.exactly-the-configured-values")
+	}
 }
